@@ -302,7 +302,7 @@ inline constexpr void Conversion<Unit::Power, Unit::Power::InchPoundPerSecond>::
 }
 
 template <typename NumericType>
-inline const std::map<Unit::Power, std::function<void(NumericType* values, const std::size_t size)>>
+inline const ConversionTable<Unit::Power, NumericType>
     MapOfConversionsFromStandard<Unit::Power, NumericType>{
       {Unit::Power::Watt,               Conversions<Unit::Power, Unit::Power::Watt>::FromStandard<NumericType>              },
       {Unit::Power::Milliwatt,
@@ -324,9 +324,8 @@ inline const std::map<Unit::Power, std::function<void(NumericType* values, const
 };
 
 template <typename NumericType>
-inline const std::
-    map<Unit::Power, std::function<void(NumericType* const values, const std::size_t size)>>
-        MapOfConversionsToStandard<Unit::Power, NumericType>{
+inline const ConversionTable<Unit::Power, NumericType>
+    MapOfConversionsToStandard<Unit::Power, NumericType>{
           {Unit::Power::Watt,               Conversions<Unit::Power, Unit::Power::Watt>::ToStandard<NumericType>              },
           {Unit::Power::Milliwatt,
            Conversions<Unit::Power,                                  Unit::Power::Milliwatt>::ToStandard<NumericType>         },
